@@ -142,9 +142,9 @@ def run(rep):
     rep.notes.append('layout routines whose sites are not yet under SMT obligations (syntactic inventory + bounded only): '
                      + ', '.join(NOT_YET))
     common.load_contracts()
-    from contracts.filters import CASE_LAYOUT_CASES, MORE_LAYOUT_CASES, STRIPWS_SHAPE_CASES
+    from contracts.filters import CASE_LAYOUT_CASES, MORE_LAYOUT_CASES, STRIPWS_SHAPE_CASES, SPACING_SHAPE_CASES
     return generic.run_generic(
-        rep, [('sqlparse.formatter.validate_options', None)] + SITE_FUNCS + list(CASE_LAYOUT_CASES) + list(MORE_LAYOUT_CASES) + list(STRIPWS_SHAPE_CASES),
+        rep, [('sqlparse.formatter.validate_options', None)] + SITE_FUNCS + list(CASE_LAYOUT_CASES) + list(MORE_LAYOUT_CASES) + list(STRIPWS_SHAPE_CASES) + list(SPACING_SHAPE_CASES),
         structural=[site_inventory_residual, pure_helpers, stack_mapping],
         assumptions=['tree-level clause: per-site SMT obligations (every removal / value store / insertion reached on any path '
                      'of the listed routines concerns a whitespace token) over the heap model; loops are over-approximated '
